@@ -151,6 +151,7 @@ type RigConfig struct {
 	ResponseOnlyModules    []string // modules that registered a response callback but no state callback
 	CallbackModules        []string
 	ModuleServices         []ModuleSvcSpec
+	LazyServiceAccounts    bool    // the module's two accounts are not created at genesis but on first use
 	FX                     *FXSpec // host chain with a token module (main units, foreign tokens) and an exchange-rate service
 }
 
@@ -660,20 +661,25 @@ func (f Funding) coins() sdk.Coins {
 
 // ParamSet is one configuration of the module parameters.
 type ParamSet struct {
-	Name        string
-	Tax         string
-	Slash       string
-	MaxTimeout  int64
-	MinDeposit  int64
-	Multiple    int64
-	Arbitration time.Duration
-	Complaint   time.Duration
-	BaseDenom   string // "" = stake
+	Name            string
+	Tax             string
+	Slash           string
+	MaxTimeout      int64
+	MinDeposit      int64
+	Multiple        int64
+	Arbitration     time.Duration
+	Complaint       time.Duration
+	BaseDenom       string    // "" = stake
+	MinDepositCoins sdk.Coins // if set, used as is for MinDeposit (may be malformed on purpose)
 }
 
 func (p ParamSet) Params() servicetypes.Params {
+	md := sdk.NewCoins(sdk.NewInt64Coin(denom, p.MinDeposit))
+	if p.MinDepositCoins != nil {
+		md = p.MinDepositCoins
+	}
 	return servicetypes.NewParams(
-		p.MaxTimeout, p.Multiple, sdk.NewCoins(sdk.NewInt64Coin(denom, p.MinDeposit)),
+		p.MaxTimeout, p.Multiple, md,
 		sdk.MustNewDecFromStr(p.Tax), sdk.MustNewDecFromStr(p.Slash),
 		p.Complaint, p.Arbitration, 4000, p.baseDenom(),
 	)
@@ -693,6 +699,9 @@ func (r *Rig) Genesis(ps ParamSet, funded []Funding, extraAccounts []sdk.AccAddr
 	w := r.Restore(s)
 	ctx := w.ctx
 	for _, n := range []string{authtypes.FeeCollectorName, minttypes.ModuleName, servicetypes.DepositAccName, servicetypes.RequestAccName} {
+		if r.cfg.LazyServiceAccounts && (n == servicetypes.DepositAccName || n == servicetypes.RequestAccName) {
+			continue // created by the module on first use, as on a chain whose genesis does not list them
+		}
 		r.ak.GetModuleAccount(ctx, n) // creates it
 	}
 	r.ak.SetParams(ctx, authtypes.DefaultParams())
